@@ -71,7 +71,9 @@ class HarnessError(Exception):
 # ---------------------------------------------------------------------------------------- findings
 
 def il_sha(extra):
-    """Hash of the emitted code a violation was observed on (comments stripped, temporaries renamed, whitespace collapsed)."""
+    """Hash of the STRUCTURE of the emitted code a violation was observed on: comments and whitespace stripped, compiler
+    temporaries renamed, and every declared C identifier alpha-renamed by order of declaration - so cosmetic changes of
+    the emitter (comment text, variable naming, blank lines) keep the hash, a different effect tree changes it."""
     import re
     il = "\n".join(str(extra[k]) for k in ("il", "il_a", "il_b", "got") if extra.get(k))
     if not il:
@@ -82,8 +84,13 @@ def il_sha(extra):
     def ren(m):
         names.setdefault(m.group(0), f"h_tmp#{len(names)}")
         return names[m.group(0)]
-    code = re.sub(r"h_tmp\d+", ren, code)
-    return hashlib.sha256(" ".join(code.split()).encode()).hexdigest()[:16]
+    code = re.sub(r"\b\w*h_tmp\d+", ren, code)
+    decl = {}
+    for m in re.finditer(r"(?:RzILOpPure|RzILOpBool|RzILOpEffect|HexOp)\s*\*?\s*([A-Za-z_]\w*)\s*=", code):
+        decl.setdefault(m.group(1), f"v{len(decl)}")
+    if decl:
+        code = re.sub(r"\b(" + "|".join(re.escape(k) for k in sorted(decl, key=len, reverse=True)) + r")\b", lambda m: decl[m.group(1)], code)
+    return hashlib.sha256("".join(code.split()).encode()).hexdigest()[:16]
 
 
 class Findings:
